@@ -583,6 +583,12 @@ func runC09(c *Ctx) *Replay {
 				ms.Extra = map[string]string{"newer_members": "1"}
 				c.Count("must_agree_newer_union_members", 1)
 			}
+			if ms.Extra == nil && c.R.Chance(1, 3) && sb.Schema.HasMap(t) {
+				// a peer that sends a map key twice (the format does not forbid it, and this
+				// library's own encoders do it for Go keys that are one date): the last one wins
+				ms.Extra = map[string]string{"repeat_keys": "1"}
+				c.Count("must_agree_repeated_keys", 1)
+			}
 			viol := execMustAgree(c.N, &ms)
 			if ms.Extra["skipped"] != "" {
 				continue
@@ -680,6 +686,9 @@ func execMustAgree(n *Node, sc *Scenario) *Violation {
 		if sc.Extra["newer_members"] == "1" {
 			nv = foreignMembers(b.Schema, tt, nv, true)
 		}
+		if sc.Extra["repeat_keys"] == "1" {
+			nv = repeatKeys(b.Schema, tt, nv)
+		}
 		encs = append(encs, refcodec.Encode(b.Schema, tt, nv))
 	}
 	checked, must := t.New(), t.New()
@@ -713,6 +722,76 @@ func execMustAgree(n *Node, sc *Scenario) *Violation {
 			map[string]string{"record_kind": kind, "path": pathShape(d)})
 	}
 	return nil
+}
+
+// repeatKeys sends the first key of every non-empty map once more, at the end, with the
+// value of the entry that was last.
+func repeatKeys(s *schema.Schema, t schema.Type, v val.Value) val.Value {
+	switch {
+	case t.Array != nil:
+		out := v
+		out.Elems = make([]val.Value, len(v.Elems))
+		for i, e := range v.Elems {
+			out.Elems[i] = repeatKeys(s, *t.Array, e)
+		}
+		return out
+	case t.MapV != nil:
+		out := v
+		out.Keys = append([]val.Value(nil), v.Keys...)
+		out.Vals = make([]val.Value, len(v.Vals))
+		for i, e := range v.Vals {
+			out.Vals[i] = repeatKeys(s, *t.MapV, e)
+		}
+		// (not for float keys: a NaN sent twice is two entries with the same bits, which no
+		// order of reading back can tell apart)
+		if n := len(out.Keys); n > 0 && n == len(out.Vals) && t.MapK != "float32" && t.MapK != "float64" {
+			out.Keys = append(out.Keys, out.Keys[0])
+			out.Vals = append(out.Vals, out.Vals[n-1])
+		}
+		return out
+	case t.Prim != "":
+		return v
+	}
+	d := s.Lookup(t.Named)
+	if d == nil {
+		return v
+	}
+	switch d.Kind {
+	case schema.KStruct:
+		out := v
+		out.Elems = make([]val.Value, len(v.Elems))
+		for i, e := range v.Elems {
+			if i < len(d.Fields) {
+				e = repeatKeys(s, d.Fields[i].Type, e)
+			}
+			out.Elems[i] = e
+		}
+		return out
+	case schema.KMessage:
+		out := v
+		out.Fields = make([]val.MsgField, len(v.Fields))
+		for i, f := range v.Fields {
+			out.Fields[i] = f
+			for _, fd := range d.Fields {
+				if fd.Index == f.Index {
+					out.Fields[i].V = repeatKeys(s, fd.Type, f.V)
+				}
+			}
+		}
+		return out
+	case schema.KUnion:
+		if v.Body != nil {
+			for _, b := range d.Branches {
+				if b.Disc == v.Disc {
+					body := repeatKeys(s, schema.Type{Named: b.Def.Name}, *v.Body)
+					out := v
+					out.Body = &body
+					return out
+				}
+			}
+		}
+	}
+	return v
 }
 
 // foreignMembers replaces every union of v below the top level by a member with a
